@@ -75,7 +75,7 @@ def conv_assign(a):
     elif name == "DistAssignment":
         rhs = conv_dist(a.distribution)
     elif name == "FunctionalAssignment":
-        raise NotApplicable("functional assignment")
+        rhs = L.RFunc(str(a.func), expr_to_poly(a.argument))
     else:
         raise NotApplicable("assignment class " + name)
     st = L.Assign([var], [rhs])
